@@ -82,6 +82,12 @@ def run(prop, tier, seed, profiles, n_quick, n_thorough, also=(), assumptions=()
             v.known_finding(f"{f['id']}: {f['summary']} ({len(known_hits[f['id']])} instances)")
     broken = proof_status(po, corr)
     if broken and not new:
+        # directed search: the programs on which the model and the code disagree, over fresh table contents
+        found = directed_search(results, corr, findings, prop, seed)
+        if found:
+            new = found
+            report_new_spec(v, new)
+    if broken and not new:
         v.violation("unproved", dict(what=f"a proof obligation or the model/code correspondence of {prop} no longer checks and the search over "
                                           "the real code found no failing input", broken=broken, theorems=po.get("theorems")), no_input=True)
     v.coverage = coverage(po, results, st, corr, known_hits,
@@ -90,6 +96,65 @@ def run(prop, tier, seed, profiles, n_quick, n_thorough, also=(), assumptions=()
         v.coverage["rule"] += "; " + level_rule
     v.assumptions = list(assumptions)
     return v.finish("proof")
+
+
+def spec_diffs_of(p, be, ro):
+    """`spec_differs` diffs of one run against the Lean Spec"""
+    out = []
+    if not front.spec_supported(p):
+        return out
+    m = front.model_run([(p, be, ro)], with_data=True)[0]
+    if m is None:
+        return out
+    spec = front.spec_frames(m, "spec")
+    for stt, o in zip(p["stmts"], ro):
+        if stt["op"] == "export" and o["outcome"] == "ok" and stt["id"] in spec:
+            d = oracle.compare_frames(o["frame"], spec[stt["id"]], bool(stt.get("ordered")))
+            if d:
+                out.append(dict(kind="spec_differs", stmt=stt["id"], op="export", backend=be, detail=d,
+                                dclass="names" if d.startswith("names") else "rowcount" if d.startswith("row counts") else "cell"))
+    return out
+
+
+def directed_search(results, corr, findings, prop, seed, max_programs=12, variants=12):
+    from . import gen, triggers
+
+    by_seed = {r["seed"]: r for r in results if "crash" not in r}
+    seeds = []
+    for c in corr:
+        if c.get("seed") in by_seed and (c["seed"], c.get("stmt")) not in seeds:
+            seeds.append((c["seed"], c.get("stmt")))
+    found = []
+    for s, stmt in seeds[:max_programs]:
+        r = by_seed[s]
+        base = r["program"]
+        ids = {x["id"] for x in base["stmts"]}
+        if stmt in ids and not stmt.startswith("x"):
+            # export right where the model and the code part ways: later verbs may wash the difference out
+            anc = campaign.ancestors(base, stmt)
+            base = dict(base, stmts=[x for x in base["stmts"] if x["id"] in anc] +
+                        [dict(id="x1", op="export", src=stmt, target="polars", ordered=False)])
+        bases = [base]
+        last = next((x for x in base["stmts"] if x["id"] == stmt), None)
+        if last is not None and len(last.get("cols", [])) > 1 and base is not r["program"]:
+            # one new column at a time: a known finding triggered by one column must not hide another column
+            for col in last["cols"]:
+                bases.append(dict(base, stmts=[dict(x, cols=[col]) if x["id"] == stmt else x for x in base["stmts"]]))
+        for k in range(variants * len(bases)):
+            c = gen.vary_tables(bases[k % len(bases)], seed * 7919 + k)
+            try:
+                po, so = oracle.run_both(c)
+                diffs = oracle.diff_c01(c, po, so) + spec_diffs_of(c, "polars", po) + spec_diffs_of(c, "sqlite", so)
+                trig = triggers.triggers_of(c, triggers.analyze(c, po))
+            except Exception:  # noqa: BLE001
+                continue
+            _, nw = campaign.classify(c, diffs, trig, findings, prop)
+            if nw:
+                found.append((dict(r, program=c), nw[0]))
+                break
+        if len(found) >= 3:
+            break
+    return found
 
 
 def report_new_spec(v, new, max_reports=6):
